@@ -330,6 +330,28 @@ func c19Check(s *Scenario, x *vrt.Exec, o *Obs, invalid error) []vrt.Violation {
 	}
 	out = append(out, oracleC02(s, x, o)...)
 	out = append(out, oracleC03(s, x, o)...)
+	out = append(out, oracleC08(s, x, o)...)
+	// values derived from the workflow input must be in the schema's serialised normal form
+	// (generic maps and lists), which is what expressions and functions are written against
+	for _, e := range o.W.Ledger {
+		if e.Kind == "stage-input" {
+			if p := strictGeneric(e.Data2, "$"); p != "" {
+				stage, _ := e.Data.(string)
+				out = append(out, viol(s, "input-not-in-normal-form", e.Step+"."+stage, fmt.Sprintf("stage %s of step %s sees workflow input that is not the schema's serialised normal form: %s", stage, e.Step, p)))
+				break
+			}
+		}
+	}
+	if o.Err == nil {
+		if p := strictGeneric(o.Data, "$"); p != "" {
+			out = append(out, viol(s, "output-not-in-normal-form", o.ID, "the returned output carries workflow input that is not in serialised normal form: "+p))
+		}
+	}
+	if o.Err == nil {
+		if p := plainData(o.Data, "$"); p != "" {
+			out = append(out, viol(s, "output-not-serialised", o.ID, "the returned output is not in serialised (generic) form: "+p))
+		}
+	}
 	return out
 }
 
@@ -366,4 +388,34 @@ func init() {
 			}
 			return us
 		}})
+}
+
+// strictGeneric accepts only map[string]any, map[any]any, []any and scalars.
+func strictGeneric(v any, path string) string {
+	switch x := v.(type) {
+	case nil, bool, string, int, int8, int16, int32, int64, uint, uint8, uint16, uint32, uint64, float32, float64:
+		return ""
+	case map[string]any:
+		for k, e := range x {
+			if p := strictGeneric(e, path+"."+k); p != "" {
+				return p
+			}
+		}
+		return ""
+	case map[any]any:
+		for k, e := range x {
+			if p := strictGeneric(e, fmt.Sprintf("%s.%v", path, k)); p != "" {
+				return p
+			}
+		}
+		return ""
+	case []any:
+		for i, e := range x {
+			if p := strictGeneric(e, fmt.Sprintf("%s[%d]", path, i)); p != "" {
+				return p
+			}
+		}
+		return ""
+	}
+	return fmt.Sprintf("%s is a %T", path, v)
 }
